@@ -275,7 +275,39 @@ def run(ck, tier):
         ck.ob('R5', gt.qn, 'get() returns the result of the per-read-code getter unchanged', ok, detail='get-result-converted', loc=cx.floc(gt),
               message='DeviceInformationFactory.get returns `%s` instead of the getter\'s table: the objects served are no longer the configured values '
                       '(e.g. bytes re-encoded as text change length and content on the wire)' % (U(r)[:90] if r is not None else None))
-    ck.floor('R5', n5, 3, 'value-producing returns of the identity factory')
+    # the store itself: what identity[id] gives back is the object that was put there, and what is put there is the caller's object
+    ident = cx.idx.cls('pymodbus.device.ModbusDeviceIdentification')
+    gi = cx.method(ident, '__getitem__')
+    ck.saw('functions', gi.qn)
+    keyp = gi.params[1]
+
+    def stored(r):
+        """is `r` a plain read of the backing dict under the requested key?"""
+        if isinstance(r, ast.Subscript):
+            return U(r.value).endswith('__data') and U(r.slice) == keyp
+        if isinstance(r, ast.Call) and isinstance(r.func, ast.Attribute) and r.func.attr in ('get', 'setdefault') and U(r.func.value).endswith('__data'):
+            return bool(r.args) and U(r.args[0]) == keyp and all(isinstance(a, ast.Constant) for a in r.args[1:])
+        return False
+    for p in cx.enum(gi, ident, max_depth=0):
+        if p.exit and p.exit[0] == 'exc':
+            continue
+        annotate(p, heap=False)
+        r = ret_expr(p)
+        n5 += 1
+        ck.ob('R5', gi.qn, 'identity[id] returns the stored object itself', r is not None and stored(r), detail='identity-getitem-converts', loc=cx.floc(gi),
+              message='ModbusDeviceIdentification.__getitem__ returns `%s`, not the object stored under the id: the value served to a client differs from '
+                      'the configured one (a conversion between bytes and text changes both length and content once the response encodes it)'
+                      % (U(r)[:80] if r is not None else None))
+    si = cx.idx.find_method(ident, '__setitem__')
+    if si is not None and len(si.params) > 2:
+        valp = si.params[2]
+        for n_ in ast.walk(si.node):
+            if isinstance(n_, ast.Assign) and any(isinstance(t, ast.Subscript) and U(t.value).endswith('__data') for t in n_.targets):
+                n5 += 1
+                ck.ob('R5', si.qn, 'identity[id] = value stores the caller\'s object itself', isinstance(n_.value, ast.Name) and n_.value.id == valp,
+                      detail='identity-setitem-converts', loc=cx.floc(si, n_),
+                      message='ModbusDeviceIdentification.__setitem__ stores `%s` instead of the value it was given' % U(n_.value)[:60])
+    ck.floor('R5', n5, 5, 'value-producing returns of the identity factory and store')
     req = cx.idx.cls(REQ)
     rex = cx.method(req, 'execute')
     calls = [c for c in ast.walk(rex.node) if isinstance(c, ast.Call) and U(c.func) == 'DeviceInformationFactory.get']
@@ -327,6 +359,8 @@ def run(ck, tier):
                           'configured objects are not returned' % foreign[:2])
     ck.floor('R4', nx, 1, 'exception-returning paths of the identity request')
     ck.assume('completeness / exactly-once over all identities and whole continuation chains is not decided; these are the structural conditions it rests on')
+    from .. import ownership as _own
+    ck.guard(_own.rule_instance_owned, ck, cx, 'R6', _own.IDENTITY, 'objects configured for one device identification are returned for another', 1)
     return cx.idx
 
 
